@@ -255,19 +255,22 @@ def r5(ctx, rule="C03.R5"):
             raise AnalysisError(f"{rule}: {cname} no longer overrides _find_base_index/get_drop_field")
         n += 1
         ctx.look()
-        # default of _find_base_index: `if self.base is UNSET: return <idx>`
-        d_idx = None
-        for s in fb.node.body:
-            if isinstance(s, ast.If) and norm(s.test) == "self.base is UNSET" and isinstance(s.body[0], ast.Return):
-                d_idx = norm(s.body[0].value)
-        explicit_idx = any(isinstance(r_, ast.Return) and norm(r_.value) == "levels.index(self.base)" for r_ in ast.walk(fb.node))
-        # get_drop_field: reduced -> None; else base if set else default level
-        rets = returns_of(gd.node)
-        last = norm(rets[-1].value) if rets else ""
-        m = re.fullmatch(r"self\.base if self\.base is not UNSET else (.+)", last)
-        d_lvl = m.group(1) if m else None
-        red_none = any(isinstance(s, ast.If) and norm(s.test) == "reduced_rank" and isinstance(s.body[0], ast.Return) and is_const(s.body[0].value, None)
-                       for s in gd.node.body)
+        # path-wise: what each method returns when no base was given / when one was / when the coding is reduced
+        U = "self.base is UNSET"
+        try:
+            fo, go = sym.outcomes(fb.node), sym.outcomes(gd.node)
+        except sym.Unmodelled as e:
+            raise AnalysisError(f"{rule}: {cname} reference-level methods cannot be summarised: {e}")
+        dflt = sym.eval_under(fo, {U: True}, kinds=("return", "fall"))
+        d_idx = norm(dflt[0][1]) if len(dflt) == 1 and dflt[0][0] == "return" and dflt[0][1] is not None else None
+        expl = sym.eval_under(fo, {U: False}, kinds=("return", "fall"))
+        explicit_idx = len(expl) == 1 and expl[0][0] == "return" and expl[0][1] is not None and norm(expl[0][1]) == "levels.index(self.base)"
+        red = sym.eval_under(go, {"reduced_rank": True}, kinds=("return", "fall"))
+        red_none = len(red) == 1 and (red[0][1] is None or is_const(red[0][1], None))
+        fd = sym.eval_under(go, {"reduced_rank": False, U: True}, kinds=("return", "fall"))
+        d_lvl = norm(fd[0][1]) if len(fd) == 1 and fd[0][0] == "return" and fd[0][1] is not None else None
+        fe = sym.eval_under(go, {"reduced_rank": False, U: False}, kinds=("return", "fall"))
+        explicit_idx = explicit_idx and len(fe) == 1 and fe[0][1] is not None and norm(fe[0][1]) == "self.base"
         ok = d_idx == want_idx and d_lvl == want_lvl and explicit_idx and red_none
         # agreement: index expr i <-> levels[i]
         agree = (d_idx, d_lvl) in (("0", "levels[0]"), ("len(levels) - 1", "levels[-1]"), ("len(levels) - 1", "levels[len(levels) - 1]"))
@@ -280,7 +283,14 @@ def r5(ctx, rule="C03.R5"):
     B = P.cls(f"{CONTRASTS}.Contrasts")
     gd = B.methods["get_drop_field"]
     rets = returns_of(gd.node)
-    ok = len(rets) == 2 and is_const(rets[0].value, None) and norm(rets[1].value) == "self.get_coding_column_names(levels, reduced_rank=reduced_rank)[0]"
+    try:
+        bo = sym.outcomes(gd.node)
+    except sym.Unmodelled as e:
+        raise AnalysisError(f"{rule}: Contrasts.get_drop_field cannot be summarised: {e}")
+    red = sym.eval_under(bo, {"reduced_rank": True}, kinds=("return", "fall"))
+    full = sym.eval_under(bo, {"reduced_rank": False}, kinds=("return", "fall"))
+    ok = len(red) == 1 and (red[0][1] is None or is_const(red[0][1], None)) and len(full) == 1 and full[0][1] is not None and \
+        sym.pm_any(["self.get_coding_column_names(levels, reduced_rank=reduced_rank)[0]", "self.get_coding_column_names(levels, reduced_rank=False)[0]"], full[0][1]) is not None
     ctx.check(ok, rule, "base Contrasts.get_drop_field: None when reduced, else the first full-coding column", gd.where,
               ctx.construct(gd, text="drop field"), f"returns: {[norm(r_.value) for r_ in rets]}")
     gs = B.methods["get_spans_intercept"]
@@ -318,11 +328,24 @@ def r6(ctx):
             ctx.check(ok_red, "C03.R6", "the reduced copy is marked reduced (so that the reduced name format is used)", f.module.line(prior[-1]),
                       ctx.construct(f, text="reduced=True"), "FactorValues(..., reduced=True) expected for the reduced copy")
     # the encoding cache is keyed by (expr, reduced_rank) unless the FACTOR ITSELF declares that its reduced form is "full minus one field"
-    ck = [st for st in walk_no_nested(f.node) if isinstance(st, (ast.Assign, ast.AnnAssign)) and norm(st.targets[0] if isinstance(st, ast.Assign) else st.target) == "cache_key"]
+    # the key under which a fresh encoding is stored: the subscript of the store into self.encoded_cache (through a local, or inline)
+    from ..util import single_assignment_env, strip_casts
+    env_ck = single_assignment_env(f.node)
+    ck = []
+    for st in walk_no_nested(f.node):
+        if isinstance(st, ast.Assign) and len(st.targets) == 1 and isinstance(st.targets[0], ast.Subscript) and norm(st.targets[0].value) == "self.encoded_cache":
+            k_ = st.targets[0].slice
+            if isinstance(k_, ast.Name) and k_.id in env_ck:
+                k_ = env_ck[k_.id]
+            ck.append((st, k_))
     ctx.floor("C03.R6", len(ck), 1, "encoding cache key definitions")
-    for st in ck:
+    for st, v in ck:
         ctx.look()
-        v = st.value
+        v = strip_casts(v)
+        if isinstance(v, ast.IfExp) and not (norm(v.body) == "factor.expr"):
+            # the other polarity: `(expr, reduced_rank) if not (…) else expr`
+            from ..normalize import negate, as_test
+            v = ast.IfExp(test=as_test(negate(v.test)), body=v.orelse, orelse=v.body)
         ok = isinstance(v, ast.IfExp) and norm(v.body) == "factor.expr" and isinstance(v.orelse, ast.Tuple) and [norm(e) for e in v.orelse.elts] == ["factor.expr", "reduced_rank"]
         drops = [a for a in ast.walk(v.test) if isinstance(a, ast.Attribute) and a.attr == "drop_field"] if isinstance(v, ast.IfExp) else []
         ok_src = bool(drops) and all(norm(a.value) == "factor.metadata" for a in drops)
@@ -330,8 +353,12 @@ def r6(ctx):
                   f.module.line(st), ctx.construct(f, text="cache key"),
                   f"cache_key = `{norm(v)[:140]}`: keying on the *encoded* value's metadata (or dropping reduced_rank) lets a full-rank contrast coding be reused for a "
                   f"reduced-rank request of a factor with its own encoder (e.g. C(g, contr.sum))")
-    t = norm(f.node)
-    ok = t.find("if factor.expr in self.encoded_cache:") < t.find("elif (factor.expr, reduced_rank) in self.encoded_cache:") and "self.encoded_cache[cache_key] = encoded" in t
+    looks = [(c.lineno, c.col_offset, norm(c.left)) for c in ast.walk(f.node) if isinstance(c, ast.Compare) and len(c.ops) == 1 and isinstance(c.ops[0], (ast.In, ast.NotIn))
+             and norm(c.comparators[0]) == "self.encoded_cache"]
+    reads = {norm(s_.slice) for s_ in ast.walk(f.node) if isinstance(s_, ast.Subscript) and norm(s_.value) == "self.encoded_cache" and isinstance(s_.ctx, ast.Load)}
+    shapes = {k for _l, _c, k in looks}
+    ok = shapes == {"factor.expr", "(factor.expr, reduced_rank)"} and reads == shapes and bool(ck) \
+        and sorted(looks)[0][2] == "factor.expr"
     ctx.check(ok, "C03.R6", "the cache is consulted with the same two key shapes it is filled with", f.where, ctx.construct(f, text="cache lookup"), "cache lookup / store key shapes changed")
     # the builder passes the scoped factor's own reduced flag
     b = P.func(f"{MAT}._build_model_matrix")
